@@ -19,9 +19,9 @@ State of the clauses (second pass):
   *source* spells out is proved equal to `strahlerRule` (`source_strahler_rule`).
 * Flow centralities: `flow_counts_paths` (synapse flow), **`bending_counts_paths`** (full: the formula counts the
   post→pre tree paths that bend at the fork — the missing lemma, `subtrees_of_distinct_children_disjoint`, is proved),
-  `flow_centrality_counts_tip_paths` (as written, off terminal twigs) with `flow_centrality_spec` /
-  `flow_centrality_le_spec` / `flow_centrality_deviation` stating exactly where the code departs from the path count
-  (terminal twigs, forking roots: open findings).
+  `flow_centrality_counts_tip_paths` (as written, at every node — unconditional since the two `fix:` commits for
+  terminal twigs and forking roots) with `flow_centrality_spec`; `flow_centrality_le_spec` / `flow_centrality_deviation`
+  are kept as *historical* statements about the pre-fix scheme (`flowCentralityHist`).
 * Segregation index: `segregation_real_in_unit_interval` and the exact cases are theorems about the function navis
   evaluates, over ℝ with the logarithmic binary entropy (Mathlib: `Real.binEntropy`), up to float rounding.
 * `segment_analysis`: lengths sum to the cable length, the Strahler column is well defined, `dist_to_root(first) =
@@ -304,25 +304,37 @@ theorem flow_centrality_spec (t : Table) (hw : WF t) (n : Int) :
   have : tipPaths t = leafFormula t true := funext fun m => (leafFormula_eq_tipPaths hw m).symm
   rw [this]
 
-/-- **`flow_centrality` as written counts tip-to-tip paths off the terminal twigs**: at a node whose unbranched
-chain ends (distally) in a branch point, the value the code propagates is the number of ordered leaf pairs whose
-path leaves the node towards its parent; at a fork none of whose children lies on a terminal twig, the largest such
-count among the children. -/
-theorem flow_centrality_counts_tip_paths (t : Table) (hw : WF t) (n : Int) (hn : n ∈ ids t)
-    (h : if isFork t n then ∀ c ∈ children t n, seedIsFork t c = true else seedIsFork t n = true) :
+/-- **`flow_centrality` as written counts tip-to-tip paths** — unconditionally since the two `fix:` commits
+(`flow_centrality/terminal-twig/zero-instead-of-tip-count`, `flow_centrality/forking-root/inherits-first-segment`): at
+every node of a well-formed forest the value the code computes (formula at branch points, leafs and roots; the other
+nodes inherit from the distal seed of their segment; branch points then take their largest child's value) is the
+number of ordered leaf pairs whose path leaves the node towards its parent, forks taking the largest such count among
+their children. -/
+theorem flow_centrality_counts_tip_paths (t : Table) (hw : WF t) (n : Int) (hn : n ∈ ids t) :
     flowCentrality t true n = fcSpec t n :=
-  flowCentrality_eq_fcSpec hw hn h
+  flowCentrality_eq_fcSpec hw hn
 
-/-- As written the value never exceeds the path count… -/
+/-- Meaning of comparing navis' column with `fcSpec`: it is the model of the code (`flowCentrality`) at every row. -/
+theorem flow_centrality_checker_sound (t : Table) (hw : WF t) (v : Int → Nat) :
+    (∀ r ∈ t, v r.id = fcSpec t r.id) ↔ (∀ r ∈ t, v r.id = flowCentrality t true r.id) := by
+  constructor <;> intro h r hr
+  · rw [h r hr, flowCentrality_eq_fcSpec hw (mem_ids_of_mem hr)]
+  · rw [h r hr, flowCentrality_eq_fcSpec hw (mem_ids_of_mem hr)]
+
+/-- **Historical** (the code before the fixes, `flowCentralityHist`: only branch points computed): the value never
+exceeded the path count, and equalled it wherever no terminal twig was involved… -/
 theorem flow_centrality_le_spec (t : Table) (hw : WF t) (n : Int) (hn : n ∈ ids t) :
-    flowCentrality t true n ≤ fcSpec t n :=
-  flowCentrality_le_fcSpec hw hn
+    flowCentralityHist t true n ≤ fcSpec t n ∧
+    ((if isFork t n then ∀ c ∈ children t n, seedIsFork t c = true else seedIsFork t n = true) →
+      flowCentralityHist t true n = fcSpec t n) :=
+  ⟨flowCentralityHist_le_fcSpec hw hn, flowCentralityHist_eq_fcSpec hw hn⟩
 
-/-- …and **this is the clause that is false of the code** (open finding
-`flow_centrality/terminal-twig/zero-instead-of-tip-count`): on a terminal twig (the chain below the node ends in a
-leaf) the code's pre-fork value is 0, whatever the number of tip-to-tip paths through the node. -/
-theorem flow_centrality_deviation (t : Table) (n : Int) (h : seedIsFork t n = false) : fcPre t true n = 0 :=
-  fcPre_of_not_seedIsFork h
+/-- …**historical**: and this was the clause false of the old code (finding
+`flow_centrality/terminal-twig/zero-instead-of-tip-count`, fixed): on a terminal twig its pre-fork value was 0,
+whatever the number of tip-to-tip paths through the node.  The repaired model `fcPre` has no such case
+(`flow_centrality_counts_tip_paths`). -/
+theorem flow_centrality_deviation (t : Table) (n : Int) (h : seedIsFork t n = false) : fcPreHist t true n = 0 :=
+  fcPreHist_of_not_seedIsFork h
 
 /-- The formula is constant along an unbranched chain (why the code may propagate it along small segments). -/
 theorem leaf_formula_constant_on_chain (t : Table) (hw : WF t) (n c : Int) (hn : n ∈ ids t) (hc : children t n = [c]) :
@@ -485,7 +497,8 @@ theorem source_flow_formulas (t : Table) (hw : WF t) (pre post : List Int) (n : 
   ⟨gen_centrifugal hw pre post n, gen_centripetal hw pre post n, gen_sum t pre post n, gen_leafFormula hw n⟩
 
 /-- Each mode selects its own formula; the literals and the default are the documented ones; totals are per
-connected component with default 0; distal counts come from the directed, unweighted geodesic matrix (`< inf`). -/
+connected component with default 0; the leaf-flow formula is evaluated at branch points, leafs and roots (the two
+`fix:` commits for flow_centrality); distal counts come from the directed, unweighted geodesic matrix (`< inf`). -/
 theorem source_flow_modes (m : Mode) :
     genSelect m = some (match m with | .centrifugal => "centrifugal" | .centripetal => "centripetal" | .sum => "sum") ∧
     Mmetrics.sfcModes = ["centrifugal", "centripetal", "sum"] ∧ Mmetrics.sfcDefaults = [("mode", "'sum'")] ∧
@@ -495,7 +508,7 @@ theorem source_flow_modes (m : Mode) :
     Mmetrics.sfcGeodesic = ("True", "None", "Lt") ∧ Mmetrics.fcGeodesic = ("True", "None", "Lt") ∧
     Mmetrics.bendGeodesic = ("True", "None", "Lt") ∧ Mmetrics.arborGeodesic = ("True", "None", "Lt") ∧
     Mmetrics.sfcFormulaOver = "calc_node_ids" ∧ Mmetrics.fcFormulaOver = "calc_node_ids" ∧
-    Mmetrics.fcLeafs = "x.leafs.node_id.values" ∧ Mmetrics.fcCalc = "x.branch_points.node_id.values" ∧
+    Mmetrics.fcLeafs = "x.leafs.node_id.values" ∧ Mmetrics.fcCalcTypes = ["branch", "end", "root"] ∧
     Mmetrics.fcEmptyValue = 0 ∧ Mmetrics.fcDistalSumAxis = "0" :=
   ⟨genSelect_eq m, rfl, rfl, rfl, rfl, rfl, rfl, rfl, rfl, rfl, rfl, rfl, rfl, rfl, rfl, rfl⟩
 
@@ -631,13 +644,14 @@ example : exactEdgesB ex = true ∧ tortParts ex = [(2, 1, 3, 9), (4, 2, 4, 16),
 example : segExact [⟨3, 6⟩, ⟨1, 2⟩] = some 0 ∧ segExact [⟨3, 0⟩, ⟨0, 2⟩] = some 1 ∧ segExact [⟨3, 1⟩, ⟨1, 2⟩] = none := by decide
 -- second pass: bending paths, leaf-flow specification, the deviation on terminal twigs, segment analysis, fastcore model
 example : (ids ex).map (bendSpec ex exPre exPost) = [3, 3, 0, 0, 0, 0] ∧ bendsAt ex 2 4 5 = true ∧ bendsAt ex 2 2 5 = false := by decide
-example : (ids ex).map (fcSpec ex) = [0, 2, 2, 2, 2, 2] ∧ (ids ex).map (flowCentrality ex true) = [0, 0, 0, 0, 0, 0] ∧
+example : (ids ex).map (fcSpec ex) = [0, 2, 2, 2, 2, 2] ∧ (ids ex).map (flowCentrality ex true) = [0, 2, 2, 2, 2, 2] ∧
+    (ids ex).map (flowCentralityHist ex true) = [0, 0, 0, 0, 0, 0] ∧
     (ids ex).map (seedIsFork ex) = [false, true, false, false, false, false] := by decide
-/-- chain 1←2←3 with fork 3 (leafs 4, 5) and a second leaf 6 on the root: node 2 is off the terminal twigs and gets the path count -/
+/-- chain 1←2←3 with fork 3 (leafs 4, 5) and a second leaf 6 on the root: historically only node 2 (off the terminal twigs) got the path count -/
 def exT : Table := [⟨1, -1, 0, 0, 0, .root⟩, ⟨2, 1, 1, 0, 0, .slab⟩, ⟨3, 2, 2, 0, 0, .branch⟩, ⟨4, 3, 3, 0, 0, .end_⟩,
   ⟨5, 3, 2, 1, 0, .end_⟩, ⟨6, 1, 0, 1, 0, .end_⟩]
-example : wfB exT = true ∧ seedIsFork exT 2 = true ∧ flowCentrality exT true 2 = 2 ∧ fcSpec exT 2 = 2 ∧
-    flowCentrality exT true 4 = 0 ∧ fcSpec exT 4 = 2 := by decide
+example : wfB exT = true ∧ seedIsFork exT 2 = true ∧ flowCentralityHist exT true 2 = 2 ∧ fcSpec exT 2 = 2 ∧
+    flowCentralityHist exT true 4 = 0 ∧ flowCentrality exT true 4 = 2 ∧ fcSpec exT 4 = 2 := by decide
 example : (segAnalysis ex fun i => if i = 4 then none else some (i + 1)).map (fun r => (r.first, r.last, r.length, r.si, r.radCount, r.volume3)) =
     [(2, 1, 3, 2, 2, 57), (4, 2, 4, 1, 1, 0), (5, 2, 5, 1, 3, 263), (6, 1, 2, 1, 2, 134)] := by decide
 example : (ids ex).map (strahlerFc ex false [6] 0) = [2, 2, 1, 1, 1, 0] ∧ (ids ex).map (strahler ex false [6]) = [2, 2, 1, 1, 1, 2] := by decide
